@@ -366,7 +366,14 @@ impl<PN: PropertyName> Property<PN> {
                 default: pack_id_counter.into(),
                 name,
             },
-            Self::Padding(size) => layout::Property::Padding(size),
+            Self::Padding(size) => {
+                // A padding property is stored as `0000 SSSS` with SSSS = size - 1: it covers 1 to 16 bytes.
+                assert!(
+                    size >= 1 && size <= 16,
+                    "A padding property covers 1 to 16 bytes (got {size})"
+                );
+                layout::Property::Padding(size)
+            }
         }
     }
 }
